@@ -21,7 +21,7 @@ RULE = ("cases = generated Nest specs (K11): 'flat' nests and 'assoc' pairs (sam
         "left). non-trivial = constructed, no preamble, both parts R-decidable, sampler exhausted (<= CAP) and every "
         "sequence judged; distinct = spec hashes")
 ASSUMPTIONS = ["validity of the outer and inner block *alone* is decided by the reference model on that sub-block"]
-MINIMUMS = {"quick": {"sequences_judged": 2500, "designs_judged": 45, "product_sets_compared": 20, "assoc_pairs_compared": 12},
+MINIMUMS = {"quick": {"sequences_judged": 2500, "designs_judged": 45, "product_sets_compared": 15, "assoc_pairs_compared": 6},
             "thorough": {"sequences_judged": 40000, "designs_judged": 900, "product_sets_compared": 350,
                          "assoc_pairs_compared": 150}}
 CASE_TIMEOUT = 200
